@@ -317,7 +317,7 @@ def run_unit(unit):
     n = 0
     zv = {}
     conc = lambda inp: concrete_roundtrip(cfg, mode)
-    for pr in core.explore(lambda: produce(cfg, mode), max_paths=50, catch=(RuntimeError,)):
+    for pr in core.explore(lambda: produce(cfg, mode), max_paths=3000, catch=(RuntimeError,)):
         log.path(pr)
         n += 1
         if pr.aborted:
